@@ -149,7 +149,10 @@ Fixpoint poll_timers (inst : Z) (u : eunit) (s : Z) (n : Z) (l : list trec) : M 
   | t :: tl => process_timeouts inst u s n (ec_tos c) 0 t ;;; poll_timers inst u s n tl
   end.
 
-(* hook.go runHook *)
+(* hook.go runHook. [k]: the hook fails its first (k mod 1000) invocations per run; k >= 1000: with an error that wraps
+   context.Canceled (a cancelled downstream call) — consume / runOnce then treat it as a lost role: no back-off, no Ack *)
+Definition hook_fails (k : nat) : nat := if Nat.leb 1000 k then k - 1000 else k.
+Definition hook_err (k : nat) : err := if Nat.leb 1000 k then ECancel else EGen.
 Definition hook_handler (st : runstate) (k : nat) (e : event) : M unit :=
   r <- p_lookup (e_run e) ;;
   match r with
@@ -160,8 +163,9 @@ Definition hook_handler (st : runstate) (k : nat) (e : event) : M unit :=
     | _ =>
       n <- att_bump (ufun_code (UFHook st)) (r_run r) ;;
       w <- get_w ;;
-      emit (TUser (UFHook st) r (lookup_run w (r_run r)) (w_now w) (if Nat.ltb n k then UErr 50 else UOk)) ;;;
-      if Nat.ltb n k then fail EGen else ret tt
+      emit (TUser (UFHook st) r (lookup_run w (r_run r)) (w_now w)
+                  (if Nat.ltb n (hook_fails k) then UErr (if Nat.leb 1000 k then 51 else 50) else UOk)) ;;;
+      if Nat.ltb n (hook_fails k) then fail (hook_err k) else ret tt
     end
   end.
 
